@@ -57,6 +57,12 @@ func (fr *frame) httpDo(method string, uri value, body value) value {
 	r := call(fr.i, fr, 0, h, []value{method, uri, body}).(tuple)
 	status, rbody, hdr, terr := r[0], r[1], r[2], r[3]
 	respT := fr.i.p.namedType("net/http", "Response")
+	// "BODY:<reason>": status line and headers arrive, the body is cut off
+	var bodyErr value
+	if ts, ok := terr.(string); ok && strings.HasPrefix(ts, "BODY:") {
+		bodyErr = fr.mkErr(strings.TrimPrefix(ts, "BODY:"))
+		terr = ""
+	}
 	noErr := fr.lift([]value{terr}, func(a []value) value { return a[0].(string) == "" })
 	if !fr.branch(noErr) {
 		// *url.Error: Op "url": Err
@@ -82,7 +88,7 @@ func (fr *frame) httpDo(method string, uri value, body value) value {
 		"StatusCode": status,
 		"Status":     statusText,
 		"Header":     hm,
-		"Body":       iface{t: nativeReaderType, v: native{&vreader{data: fr.stringToBytes(rbody)}}},
+		"Body":       iface{t: nativeReaderType, v: native{&vreader{data: fr.stringToBytes(rbody), err: bodyErr}}},
 	})
 	return tuple{&cell, iface{}}
 }
